@@ -440,8 +440,46 @@ def check_access_store(idx, run):
               loc(mod, merge))
 
 
+
+PREDICATES = [
+    ("psyclone.psyir.nodes.call.Call", "is_pure", True),
+]
+
+
+def check_collection_is_pure(idx, run):
+    """Access information has to describe the tree as it is *now*: the
+    collectors (and the signature helpers they use) must not keep anything
+    on the node between calls - a stored Signature goes stale when the
+    symbol is renamed in place (SymbolTable.rename_symbol)."""
+    base = idx.get_class("psyclone.psyir.nodes.node.Node")
+    n = 0
+    for cls in idx.all_subclasses(base, include_self=True):
+        for meth in ("reference_accesses", "get_signature_and_indices"):
+            func = cls.methods.get(meth)
+            if func is None:
+                continue
+            n += 1
+            stores = [t for st in ast.walk(func)
+                      if isinstance(st, (ast.Assign, ast.AugAssign))
+                      for t in (st.targets if isinstance(st, ast.Assign)
+                                else [st.target])
+                      if isinstance(t, ast.Attribute) and
+                      isinstance(t.value, ast.Name) and t.value.id == "self"]
+            run.check("C11.R2", not stores, f"{cls.name}.{meth}",
+                      "nothing is cached on the node",
+                      f"{cls.name}.{meth} stores "
+                      f"'{ast.unparse(stores[0]) if stores else ''}' on the "
+                      f"node: what it returns next time can describe a "
+                      f"symbol name that no longer exists (collect, rename "
+                      f"the symbol in place, collect again)",
+                      loc(cls.module, stores[0] if stores else func))
+    run.floor("access collectors", n, 12)
+
 def check(idx, run):
     run.explanation = __doc__
+    from sa.guards import check_predicates
+    check_predicates(idx, run, "C11.R3", PREDICATES)
+    check_collection_is_pure(idx, run)
     check_coverage(idx, run)
     check_order(idx, run)
     check_options_forwarded(idx, run)
